@@ -46,6 +46,8 @@ class GroupAddressDPT:
                 continue
             if (transcoder := DPTBase.parse_transcoder(dpt)) is None:
                 unknown_dpts.add(repr(dpt))  # prevent unhashable types (dict)
+                # don't keep decoding with a type the address had before
+                self._ga_dpts.pop(address.raw, None)
                 continue
             self._ga_dpts[address.raw] = transcoder
         if unknown_dpts:
